@@ -644,6 +644,11 @@ func (t *tScreen) prepareKeys() {
 	t.prepareKey(keyPasteStart, ti.PasteStart)
 	t.prepareKey(keyPasteEnd, ti.PasteEnd)
 	t.prepareXtermModifiers()
+	// These are defined by some database entries (aixterm, hpterm, rxvt).
+	// They come after the xterm modifier forms, which take precedence.
+	t.prepareKey(KeyClear, ti.KeyClear)
+	t.prepareKeyMod(KeyInsert, ModShift, ti.KeyShfInsert)
+	t.prepareKeyMod(KeyDelete, ModShift, ti.KeyShfDelete)
 	t.prepareBracketedPaste()
 	t.prepareCursorStyles()
 	t.prepareUnderlines()
